@@ -205,6 +205,21 @@ def _raw(spec):
                 a[idx][labels == k] = h + np.sqrt(1.0 / kappa) * _cnormal(rng, (n, D))
             a[idx] *= np.exp(1j * rng.uniform(0, 2 * np.pi, size=(N, 1)))
             a[idx] *= 10.0 ** rng.uniform(-2, 2, size=(N, 1))
+    elif kind == 'cdiffuse':
+        # (..., N, D) isotropic complex noise plus K weak directional sources
+        # (power ``snr`` relative to the noise): nearly uniform directions,
+        # Watson concentrations below 1 for large N
+        *lead, N, D = shape
+        K = int(spec['K'])
+        snr = float(spec.get('snr', 0.01))
+        a = _cnormal(rng, shape)
+        for idx in np.ndindex(*lead):
+            labels = rng.randint(0, K, size=N)
+            for k in range(K):
+                h = _cnormal(rng, (D,))
+                h = h / np.linalg.norm(h) * np.sqrt(D)
+                sel = labels == k
+                a[idx][sel] += np.sqrt(snr) * _cnormal(rng, (int(sel.sum()), 1)) * h
     elif kind == 'basis_rows':
         # (N, D) complex rows cycling through a random unitary basis
         N, D = shape
